@@ -28,7 +28,7 @@ RULE = (
     "(document, modes, generated case) triples"
 )
 BOUNDS = {
-    "quick": {"d": 2, "max_exec_per_tree": 1300, "d_mixed_mode_recheck": 1, "liveness_max_exec": 2600, "chars": ["a", "0"]},
+    "quick": {"d": 2, "max_exec_per_tree": 2500, "d_mixed_mode_recheck": 1, "liveness_max_exec": 2600, "chars": ["a", "0"]},
     "thorough": {"d": 3, "max_exec_per_tree": 12000, "d_mixed_mode_recheck": 2, "liveness_max_exec": 40000,
                  "chars": ["a", "b", "0", "1", "\x00", "é", " "]},
 }
